@@ -398,7 +398,7 @@ UNARY = (
 )
 BINARY = (
     "Union[{0}, {1}]", "{0} | {1}", "Dict[{0}, {1}]", "dict[{0}, {1}]", "Mapping[{0}, {1}]", "Tuple[{0}, {1}]", "tuple[{0}, {1}]", "Callable[[{0}], {1}]", "Callable[[{0}, {1}], {0}]",
-    "DefaultDict[{0}, {1}]", "Optional[Union[{0}, {1}]]", "Tuple[{0}, Unpack[Tuple[{1}, ...]]]",
+    "DefaultDict[{0}, {1}]", "Optional[Union[{0}, {1}]]", "Tuple[{0}, Unpack[Tuple[{1}, ...]]]", "tuple[{0}, *tuple[{1}, ...]]", "Tuple[*Tuple[{0}, ...], {1}]",
 )
 CLOSED = (
     "int", "str", "None", "Any", "object", "T", "UserId", "list", "dict", "tuple", "type", "List", "Dict", "Tuple", "Type", "Callable", "NoReturn", "Never", "LiteralString",
